@@ -89,9 +89,12 @@ func Transcript(seed uint64, k int, bls bool, sigIn, sigOut string) (map[string]
 			for _, p := range []struct {
 				e    engine.Engine
 				prop string
-			}{{dkgsim.Engine{}, "C07"}, {dkgsim.Engine{}, "C08"}, {thrnet.Engine{}, "C06"}} {
-				name := fmt.Sprintf("%s-%s/%d", p.e.Name(), p.prop, i)
-				o, _ := engine.RunOne(p.e, seed, i, engine.Opt{Property: p.prop, Tier: "quick"})
+				mode string
+			}{{dkgsim.Engine{}, "C07", ""}, {dkgsim.Engine{}, "C08", ""}, {thrnet.Engine{}, "C06", ""},
+				// worlds whose verdict hinges on the subgroup checks of every vector point, and a craft world
+				{dkgsim.Engine{}, "C08", "fermat"}, {dkgsim.Engine{}, "C08", "torsion"}, {dkgsim.Engine{}, "C07", "craft"}} {
+				name := fmt.Sprintf("%s-%s%s/%d", p.e.Name(), p.prop, p.mode, i)
+				o, _ := engine.RunOne(p.e, seed, i, engine.Opt{Property: p.prop, Tier: "quick", Mode: p.mode})
 				t.begin(name)
 				t.add("eventhash", []byte(o.EventHash))
 				t.addf("viols", "%d", len(o.Viols))
@@ -131,6 +134,14 @@ func (t *tr) hashes(i int, rnd *choice.Src) {
 	// message after a longer one, Reset in the middle of a block, writes that straddle block
 	// boundaries, SumHash followed by more writes, ComputeHash in between
 	reuse := func(label string, h hash.Hasher) {
+		// digests are also HELD (not copied) and written to the transcript only after the hasher
+		// has been used further: a digest that is a view of the hasher's state changes meanwhile
+		var held []hash.Hash
+		defer func() {
+			for k, d := range held {
+				t.add(fmt.Sprintf("%s.held.%d", label, k), d)
+			}
+		}()
 		for step := 0; step < 28; step++ {
 			switch rnd.Intn(6) {
 			case 0:
@@ -139,9 +150,13 @@ func (t *tr) hashes(i int, rnd *choice.Src) {
 			case 1:
 				_, _ = h.Write(rnd.Bytes(sizes[rnd.Intn(len(sizes)-2)]))
 			case 2:
-				t.add(fmt.Sprintf("%s.sum.%d", label, step), h.SumHash())
+				d := h.SumHash()
+				held = append(held, d)
+				t.add(fmt.Sprintf("%s.sum.%d", label, step), d)
 			case 3:
-				t.add(fmt.Sprintf("%s.compute.%d", label, step), h.ComputeHash(rnd.Bytes(rnd.Intn(300))))
+				d := h.ComputeHash(rnd.Bytes(rnd.Intn(300)))
+				held = append(held, d)
+				t.add(fmt.Sprintf("%s.compute.%d", label, step), d)
 			default:
 				_, _ = h.Write(rnd.Bytes(1 + rnd.Intn(20)))
 			}
@@ -312,6 +327,33 @@ func (t *tr) ecdsa(i int, rnd *choice.Src, sigs []Sig) []Sig {
 		classify("prg.subperm.m>n", err)
 	}
 	classify("nil", nil)
+	// names of the enumerations (all builds know all algorithms by name)
+	str := func(label string, f func() string) {
+		r := func() (s string) {
+			defer func() {
+				if p := recover(); p != nil {
+					s = "PANIC"
+				}
+			}()
+			return f()
+		}()
+		t.addf("string."+label, "%s", r)
+	}
+	for _, a := range []crypto.SigningAlgorithm{crypto.UnknownSigningAlgorithm, crypto.BLSBLS12381, crypto.ECDSAP256, crypto.ECDSASecp256k1} {
+		a := a
+		str(fmt.Sprintf("sigalgo.%d", int(a)), a.String)
+	}
+	for _, a := range []hash.HashingAlgorithm{hash.UnknownHashingAlgorithm, hash.SHA2_256, hash.SHA2_384, hash.SHA3_256, hash.SHA3_384, hash.KMAC128, hash.Keccak_256} {
+		a := a
+		str(fmt.Sprintf("hashalgo.%d", int(a)), a.String)
+	}
+	for _, alg := range []crypto.SigningAlgorithm{crypto.ECDSAP256, crypto.ECDSASecp256k1} {
+		if sk, err := crypto.GeneratePrivateKey(alg, rnd.Bytes(32)); err == nil {
+			str("sk.algorithm", func() string { return sk.Algorithm().String() })
+			str("pk.string", func() string { return sk.PublicKey().String() })
+			str("sk.size", func() string { return fmt.Sprint(sk.Size(), sk.PublicKey().Size()) })
+		}
+	}
 	// signatures exported by the default build: every configuration must accept them
 	for _, s := range sigs {
 		alg := []crypto.SigningAlgorithm{crypto.ECDSAP256, crypto.ECDSASecp256k1}[s.Alg]
@@ -547,25 +589,53 @@ func (t *tr) bls(i int, rnd *choice.Src) {
 		}
 	}
 	// a large group with high signer indices and more than 8 shares (limb batching of the Lagrange code)
-	if i%3 == 0 {
-		bn, bt := 254, 9+rnd.Intn(4)
+	// thresholds from 9 to n-1, signer sets: contiguous from the top / bottom / middle, low indices plus
+	// the highest one, evenly spread, reversed
+	{
+		bn := 254
+		bt := []int{9 + rnd.Intn(4), 21 + rnd.Intn(20), 64, 100 + rnd.Intn(100), 30 + rnd.Intn(8)}[i%5]
+		if i == 1 {
+			bt = 253
+		}
 		bsk, _, bgpk, err := crypto.BLSThresholdKeyGen(bn, bt, rnd.Bytes(32))
 		if err == nil {
 			t.add("bigthr.gpk", bgpk.Encode())
+			sets := [][]int{}
 			for _, first := range []int{bn - bt - 1, 0, 130} {
-				var sh []crypto.Signature
 				var who []int
 				for k := 0; k <= bt; k++ {
-					idx := (first + k) % bn
+					who = append(who, (first+k)%bn)
+				}
+				sets = append(sets, who)
+			}
+			lowPlusTop := []int{}
+			for k := 0; k < bt; k++ {
+				lowPlusTop = append(lowPlusTop, k)
+			}
+			sets = append(sets, append(lowPlusTop, 253))
+			var spread, rev []int
+			for k := 0; k <= bt; k++ {
+				spread = append(spread, (k*(bn-1))/max(bt, 1))
+				rev = append(rev, bt-k)
+			}
+			if bt < 200 {
+				sets = append(sets, spread)
+			}
+			sets = append(sets, rev)
+			for si, who := range sets {
+				var sh []crypto.Signature
+				for _, idx := range who {
 					s, _ := bsk[idx].Sign(msg, h)
 					sh = append(sh, s)
-					who = append(who, idx)
 				}
 				g, err := crypto.BLSReconstructThresholdSignature(bn, bt, sh, who)
-				t.add(fmt.Sprintf("bigthr.sig.%d", first), g)
+				t.add(fmt.Sprintf("bigthr.sig.%d.%d", bt, si), g)
 				t.addf("bigthr.err", "%v", err)
 				ok, _ := bgpk.Verify(g, msg, h)
 				t.addf("bigthr.verify", "%v", ok)
+				if bt > 120 && si >= 1 {
+					break // the largest thresholds: two signer sets are enough
+				}
 			}
 			t.add("bigthr.sk253", bsk[253].Encode())
 			t.add("bigthr.sk127", bsk[127].Encode())
